@@ -101,3 +101,65 @@ func zxC09OffsetLimit() {
 	}
 	vrtReach("C09.O")
 }
+
+// C09.T — compare, the comparison behind every ORDER BY key, on two values of each dimension type
+// that bytemap can hand back (both values of the same type, as the values of one dimension
+// normally are): it does not panic and its sign is the order of the two values.
+//
+//zx:harness prop=C09+C16 id=C09.T tier=quick
+func zxC09CompareTypes() {
+	lo, hi := int64(vrtRange("lo", 0, 20)), int64(0)
+	hi = lo + int64(vrtRange("gap", 0, 5))
+	var a, b interface{}
+	tname := ""
+	switch vrtShape("type", 13) {
+	case 0:
+		a, b, tname = lo%2 == 1, hi%2 == 1, "bool"
+	case 1:
+		a, b, tname = byte(lo), byte(hi), "byte"
+	case 2:
+		a, b, tname = uint16(lo), uint16(hi), "uint16"
+	case 3:
+		a, b, tname = uint32(lo), uint32(hi), "uint32"
+	case 4:
+		a, b, tname = uint64(lo), uint64(hi), "uint64"
+	case 5:
+		a, b, tname = uint(lo), uint(hi), "uint"
+	case 6:
+		a, b, tname = int8(lo), int8(hi), "int8"
+	case 7:
+		a, b, tname = int16(lo), int16(hi), "int16"
+	case 8:
+		a, b, tname = int32(lo), int32(hi), "int32"
+	case 9:
+		a, b, tname = lo, hi, "int64"
+	case 10:
+		a, b, tname = int(lo), int(hi), "int"
+	case 11:
+		// float32: concrete values (the engine has no symbolic int -> float32 conversion)
+		flo := vrtShape("flo", 3)
+		fhi := flo + vrtShape("fgap", 2)
+		lo, hi = int64(flo), int64(fhi)
+		a, b, tname = float32(flo), float32(fhi), "float32"
+	case 12:
+		a, b, tname = float64(lo), float64(hi), "float64"
+	}
+	if tname == "bool" {
+		va, vb := a.(bool), b.(bool)
+		want := 0
+		if va && !vb {
+			want = 1
+		} else if !va && vb {
+			want = -1
+		}
+		vrtAssert(compare(a, b) == want && compare(b, a) == -want, "compare orders two bool values")
+	} else {
+		want := 0
+		if lo < hi {
+			want = -1
+		}
+		vrtAssert(compare(a, b) == want, "compare orders two "+tname+" values (a <= b)")
+		vrtAssert(compare(b, a) == -want, "compare orders two "+tname+" values (b >= a)")
+	}
+	vrtReach("C09.T")
+}
